@@ -87,15 +87,16 @@ def add_computed_field(*args, resources=None, **kw):
                 resource['schema']['fields'].extend(new_fields)
         yield package.pkg
 
-        for f in fields:
-            target = f['target']
-            if isinstance(target, str):
-                f['target'] = dict(name=target)
+        # the caller's specification is left as it was given: the step can run again
+        row_fields = [
+            dict(f, target=dict(name=f['target'])) if isinstance(f['target'], str) else f
+            for f in fields
+        ]
 
         for resource in package:
             if not matcher.match(resource.res.name):
                 yield resource
             else:
-                yield process_resource(fields, resource)
+                yield process_resource(row_fields, resource)
 
     return func
